@@ -54,7 +54,8 @@ inductive Pc
   | idle
   -- lock_shared forms
   | rdA (k : Nat)                     -- called; LR read acquisition in progress (side flag not yet loaded)
-  | rdH (k : Nat) (g : Option Ver)    -- LR read handle held; g = version whose shared_ptr has been copied
+  | rdH (k : Nat) (g : Option Ver)    -- LR read handle held; g = version whose pointer word has been loaded
+  | rdP (k : Nat) (v : Ver)           -- shared_ptr copied (both words loaded, reference taken); LR handle still held
   | rdD (k : Nat) (v : Ver)           -- LR handle released; before `ret`
   -- lock()
   | lkCalled                          -- before `mlk wm`
@@ -182,17 +183,21 @@ def stepRdA (s : St) (t : Tid) (k : Nat) : Ev → Option St
   | .lr (.ldRL x) => (lrGot s t k x).map (fun l => (withLr s l).setPc t (.rdH k none))
   | _ => none
 
-/-- lock_shared forms: copy of the shared_ptr under the LR read handle, then LR release -/
+/-- lock_shared forms: copy of the shared_ptr under the LR read handle (pointer word, then control-block word) -/
 def stepRdH (s : St) (t : Tid) (k : Nat) (g : Option Ver) : Ev → Option St
   | .ldPtr x v =>
       if g = none ∧ v = s.sv x then
         (lrRd s t x).map (fun l => ({ s with lr := l, snaps := (t, v) :: s.snaps }).setPc t (.rdH k (some v)))
       else none
-  | .ldCtl x => (lrRd s t x).map (fun l => (withLr s l).setPc t (.rdH k g))
-  | .lr (.dec c old) =>
+  | .ldCtl x =>
       match g with
-      | some v => (lrRel s t c old).map (fun l => (withLr s l).setPc t (.rdD k v))
+      | some v => (lrRd s t x).map (fun l => (withLr s l).setPc t (.rdP k v))
       | none => none
+  | _ => none
+
+/-- lock_shared forms: LR release -/
+def stepRdP (s : St) (t : Tid) (k : Nat) (v : Ver) : Ev → Option St
+  | .lr (.dec c old) => (lrRel s t c old).map (fun l => (withLr s l).setPc t (.rdD k v))
   | _ => none
 
 def stepRdD (s : St) (t : Tid) (k : Nat) (v : Ver) : Ev → Option St
@@ -316,6 +321,7 @@ def step (s : St) (t : Tid) (e : Ev) : Option St :=
   | .idle => stepIdle s t e
   | .rdA k => stepRdA s t k e
   | .rdH k g => stepRdH s t k g e
+  | .rdP k v => stepRdP s t k v e
   | .rdD k v => stepRdD s t k v e
   | .dr v need => stepDr s t v need e
   | .lkCalled => stepLkCalled s t e
